@@ -27,10 +27,20 @@ def scenarios(tier, seed):
                 # (with output: the stderr size is capped: the captured value - which, F-11c, includes stderr - must stay
                 # below the 128 KiB limit of one environment string or every later exec fails with E2BIG)
                 out.append({"id": i, "stdoutFile": so, "stderrFile": se, "output": ou, "script": scr, "retries": retries, "failUntil": fail,
-                            "nout": n, "nerr": min([0, 1, n // 2 + 1, n][i % 4], 1000 if ou else n), "order": ["outfirst", "errfirst", "chunks"][i % 3],
+                            "nout": n, "nerr": min([0, 1, n // 2 + 1, n][(i // 4) % 4], n), "order": ["outfirst", "errfirst", "chunks", "parallel"][i % 4],
                             # Schedule without a done channel is what the unit tests do; the agent always passes one.
                             # tailLate: the old goroutine's deferred part is held until the next attempt is being executed
                             "doneChan": i % 2 == 0, "tailLate": fail > 0 and (i // 2) % 2 == 0})
+                if out[-1]["order"] == "parallel":
+                    out[-1]["nerr"] = n          # both streams at full volume, written at the same time
+    # both streams written at the same time with output: set: the executor then drains two pipes concurrently into writers
+    # that share the log (and the stdout file). A missing lock there corrupts only now and then (about 3 % of such runs),
+    # so this configuration is repeated often
+    for k in range(200 if tier == "quick" else 1200):
+        i += 1
+        n = [65536, 100000, 30000, 4097][k % 4]
+        out.append({"id": i, "stdoutFile": k % 2 == 0, "stderrFile": False, "output": True, "script": k % 8 == 7, "retries": 0, "failUntil": 0,
+                    "nout": n, "nerr": n, "order": "parallel", "doneChan": True, "tailLate": False})
     return out
 
 
